@@ -11,6 +11,7 @@
 (*   ResStart(r)   Result() is called: the timeout starts; a buffered reply is    *)
 (*                 returned at once                                                *)
 (*   TimeoutAll    the timeout passes for every Result() that is still waiting    *)
+(*   Elapse        more than the timeout passes while replies sit uncollected     *)
 (* Whichever way Result() returns, the deferred Registry.Remove unregisters the   *)
 (* response PID.  FixedPid = TRUE models an implementation that reuses one        *)
 (* response PID for consecutive requests (regression config: must fail).          *)
@@ -99,7 +100,17 @@ TimeoutAll ==
   /\ registered' = [p \in Reqs |-> IF registered[p] # 0 /\ waiting[registered[p]] THEN 0 ELSE registered[p]]
   /\ UNCHANGED <<requested, buf, started, replies, blocked, dead>>
 
-Next == TimeoutAll \/ \E r \in Reqs : Req(r) \/ Reply(r) \/ ResStart(r)
+(* real time again: more than the timeout passes while no Result() call is waiting and every request that has not been
+   collected yet already has its reply in the channel (scatter / gather: send the requests, do something else, collect).
+   Nothing changes: those replies arrived within the timeout and Result() has to return them.  Once per behaviour. *)
+Uncollected == {q \in Reqs : requested[q] /\ ~started[q]}
+Elapse ==
+  /\ Waiting = {} /\ Uncollected # {} /\ \A q \in Uncollected : buf[q] # <<>>
+  /\ \A i \in 1..Len(hist) : hist[i].op # "elapse"
+  /\ Op([op |-> "elapse", r |-> 0, ret |-> <<>>, blk |-> FALSE])
+  /\ UNCHANGED <<requested, registered, buf, waiting, started, outcome, replies, blocked, dead>>
+
+Next == TimeoutAll \/ Elapse \/ \E r \in Reqs : Req(r) \/ Reply(r) \/ ResStart(r)
 Spec == Init /\ [][Next]_vars
 
 (* ---------------------------------------------------------------- properties (C11) *)
